@@ -1,5 +1,5 @@
 #!/usr/bin/python3
-"""tool/seed_verify.py <PROP> <VARIANT> [--checks "C12 C09 ..."]
+"""tool/seed_verify.py <PROP> <VARIANT> [--round 2] [--checks "C12 C09 ..."]
 Confirms a sub-agent's seeded change in its scratch worktree /tmp/seed_<PROP> (applies
 OUT/<VARIANT>/patch.diff, rebuilds and runs the repo's test-suite, builds and runs the demo with and
 without the change), then runs the /verif checks against the changed tree (FSVERIF_REPO) and stores
@@ -7,7 +7,7 @@ everything under /verif/seeded/<PROP>-<VARIANT>/ (patch.diff, demo.cpp, README.m
 import json, os, shutil, subprocess, sys, time
 
 VERIF = os.path.dirname(os.path.dirname(os.path.abspath(__file__)))
-ALL = "C01 C02 C03 C04 C05 C06 C07 C08 C09 C10 C11 C12 C13 C15 C16 C17 C19 C20".split()
+ALL = "C01 C02 C03 C04 C05 C06 C07 C08 C09 C10 C11 C12 C13 C14 C15 C16 C17 C18 C19 C20".split()
 
 
 def sh(cmd, **kw):
@@ -25,10 +25,14 @@ def main():
         dflags = sys.argv[sys.argv.index("--demo-flags") + 1]
     if "--cxx" in sys.argv:
         cxx = sys.argv[sys.argv.index("--cxx") + 1]
-    wt = "/tmp/seed_%s" % prop
+    rnd = ""
+    if "--round" in sys.argv:
+        rnd = sys.argv[sys.argv.index("--round") + 1]
+    wt = "/tmp/seed%s_%s" % (rnd, prop)
     src = os.path.join(wt, "OUT", var)
+    name = rnd + var
     patch = os.path.join(src, "patch.diff")
-    meta = {"property": prop, "variant": var, "worktree": wt, "when": time.strftime("%Y-%m-%d %H:%M"),
+    meta = {"property": prop, "variant": name, "worktree": wt, "when": time.strftime("%Y-%m-%d %H:%M"),
             "demo_build": "%s -std=gnu++17 -O1 -I<tree>/include demo.cpp -lpthread %s" % (cxx, dflags)}
     sh("git -C %s checkout -- include" % wt)
     r = sh("git -C %s apply --check %s" % (wt, patch))
@@ -52,10 +56,16 @@ def main():
         res = {}
         env = dict(os.environ, FSVERIF_REPO=wt, FSVERIF_CACHE="/var/tmp/seedcache_%s" % prop,
                    FSVERIF_EVIDENCE="/var/tmp/seedevid_%s" % prop)
-        for c in checks:
+        subprocess.run([os.path.join(VERIF, "check"), "C06"], capture_output=True, text=True, env=env, cwd=VERIF)  # warm the SIR cache
+        from concurrent.futures import ThreadPoolExecutor
+
+        def one(c):
             r = subprocess.run([os.path.join(VERIF, "check"), c], capture_output=True, text=True, env=env, cwd=VERIF)
             first = [l for l in r.stdout.splitlines() if l.startswith("  rule") or l.startswith("ANALYSIS")]
-            res[c] = {"exit": r.returncode, "first": first[0][:260] if first else ""}
+            return c, {"exit": r.returncode, "first": first[0][:260] if first else ""}
+        with ThreadPoolExecutor(max_workers=6) as ex:
+            for c, v in ex.map(one, checks):
+                res[c] = v
         meta["checks_on_changed_tree"] = res
         meta["caught_by"] = sorted(c for c, v in res.items() if v["exit"] == 1)
         meta["analysis_broken"] = sorted(c for c, v in res.items() if v["exit"] == 2)
@@ -69,7 +79,7 @@ def main():
         isinstance(meta.get("demo_with_change"), dict) and meta["demo_with_change"]["exit"] != 0 and \
         meta["demo_without_change"]["exit"] == 0
     meta["confirmed"] = ok
-    out = os.path.join(VERIF, "seeded", "%s-%s" % (prop, var))
+    out = os.path.join(VERIF, "seeded", "%s-%s" % (prop, name))
     if ok:
         os.makedirs(out, exist_ok=True)
         for f in ("patch.diff", "demo.cpp", "README.md"):
